@@ -127,15 +127,39 @@ def real_oracle(ctx, rep):
                     ba, bb = snapshot(a), snapshot(b)
                     c1, c2 = cx(a, b)
                     rep.count("crossover")
-                    for c in (c1, c2):
-                        check_child(rep, case, "crossover", c, [a, b], [ba, bb], D, ops, size, max(a.genetic_age, b.genetic_age))
+                    for c, own in ((c1, ba), (c2, bb)):
+                        check_child(rep, case, "crossover", c, [a, b], [ba, bb], D, ops, size, max(a.genetic_age, b.genetic_age), own_parent=own)
+                    # crossover between relatives (identical tails / identical stacks / differences only near the top or
+                    # the bottom) of different ages, evaluated parents: the object-level model (C04.crossover_children) says
+                    # both children get the larger age and are marked not evaluated whatever the cut
+                    for variant in range(4):
+                        rel = a.copy()
+                        if variant == 1:
+                            rel = AGraphMutation(cg, 0, 0, 1, 0, 0)(a)
+                        elif variant == 2:
+                            rel.mutable_command_array[0] = (G.INTEGER, 7, 7)
+                        elif variant == 3 and size >= 2:
+                            rel.mutable_command_array[size - 1] = (G.INTEGER, 7, 7) if size == 1 else a.command_array[size - 2]
+                        rel.genetic_age = a.genetic_age + 1 + rng.randrange(5)
+                        rel.fitness, a.fitness = 0.25, 1.5
+                        pa, pr = (a, rel) if rng.random() < 0.5 else (rel, a)
+                        bpa, bpr = snapshot(pa), snapshot(pr)
+                        c1, c2 = cx(pa, pr)
+                        rep.count("crossover_relatives", f"variant {variant}")
+                        rep.case(("cxrel", str(bpa[0]), str(bpr[0]), str(c1.command_array.tolist())), True)
+                        for c, own in ((c1, bpa), (c2, bpr)):
+                            check_child(rep, case, f"crossover of relatives (variant {variant})", c, [pa, pr], [bpa, bpr], D, ops, size,
+                                        max(pa.genetic_age, pr.genetic_age), own_parent=own)
+                            if c.fit_set or c.fitness is not None:
+                                rep.disagree("crossover child keeps fit_set / fitness (the regenerated body clears both through the "
+                                             "mutable view whatever the cut)", {**case, "child": c.command_array.tolist(), "parents": [bpa[0], bpr[0]]})
         except Timeout:
             rep.violate("generation / mutation / crossover did not terminate within 5 s on a non-degenerate configuration", "C04:hang", case)
         except Exception as exc:
             rep.violate(f"{type(exc).__name__}: {exc} on a non-degenerate configuration", "C04:raised", case)
 
 
-def check_child(rep, case, what, child, parents, before, D, ops, size, want_age):
+def check_child(rep, case, what, child, parents, before, D, ops, size, want_age, own_parent=None):
     stack = child.command_array.tolist()
     why = wf(stack, D, ops, size)
     c = {**case, "what": what, "child": stack, "parents": [b[0] for b in before]}
@@ -147,7 +171,8 @@ def check_child(rep, case, what, child, parents, before, D, ops, size, want_age)
             rep.violate(f"{what}: a parent was modified", "C04:parent-modified", c)
     if child.genetic_age != want_age:
         rep.violate(f"{what}: child age {child.genetic_age}, expected {want_age}", "C04:age", c)
-    if all(stack != b[0] for b in before[:1]) and child.fit_set:
+    own = before[0] if own_parent is None else own_parent
+    if stack != own[0] and child.fit_set:
         rep.violate(f"{what}: child differs from its parent but is marked evaluated", "C04:stale-flag", c)
     try:
         x = np.array([[0.7] * max(D, 1), [1.3] * max(D, 1)])
